@@ -97,7 +97,12 @@ def build(ast, memo=None):
             ch = map(lambda x: x, ch)
         elif form == "tuple":
             ch = tuple(ch)
-        if k == "AtLeast":
+        via = ast.get("via")
+        if via == "from_list" and k in ("All", "Any", "Xor", "XNor", "CcAny", "CcXor"):
+            # the documented list constructors: X.from_list(propositions, variable=...[, default=...])
+            cls = {"All": pg.All, "Any": pg.Any, "Xor": pg.Xor, "XNor": pg.XNor, "CcAny": cc.Any, "CcXor": cc.Xor}[k]
+            r = cls.from_list(list(ch), variable=var, default=build_default(ast)) if k.startswith("Cc") else cls.from_list(list(ch), variable=var)
+        elif k == "AtLeast":
             r = pg.AtLeast(ast["v"], ch, variable=var, sign=ast.get("s"))
         elif k == "AtMost":
             r = pg.AtMost(ast["v"], ch, variable=var)
@@ -232,6 +237,8 @@ class ModelGen:
             r = {"k": "AtMost", "v": rng.randint(-2, 4), "ch": self.children(depth), "id": v, "form": argform}
         elif kind in ("All", "Any", "Xor", "XNor"):
             r = {"k": kind, "ch": self.children(depth), "id": v}
+            if rng.random() < 0.15:
+                r["via"] = "from_list"
         elif kind == "Imply":
             r = {"k": "Imply", "ch": [self.children(depth, 1, 1)[0], self.children(depth, 1, 1)[0]], "id": v}
         elif kind == "Not":
@@ -512,10 +519,14 @@ class ConfigGen:
         self.items = list("abcdefgh")[: (nleaf or rng.randint(4, 7))]
         self.cnt = 0
         self.explicit = explicit
+        # now and then one item is an amount, not a yes/no item: an integer variable with the same bounds wherever it occurs
+        self.amount = {rng.choice(self.items): rng.choice([[0, 2], [0, 3], [1, 3]])} if rng.random() < 0.25 else {}
     def fresh(self, force=False):
         self.cnt += 1
         return f"R{self.cnt}" if (force or self.rng.random() < self.explicit) else None
     def leaf(self, nm):
+        if nm in self.amount:
+            return {"k": "var", "id": nm, "b": list(self.amount[nm])}
         return {"k": "str", "id": nm} if self.rng.random() < 0.6 else {"k": "var", "id": nm, "b": [0, 1]}
     def leaves(self, kmin=2, kmax=4):
         k = self.rng.randint(kmin, min(kmax, len(self.items)))
@@ -534,6 +545,8 @@ class ConfigGen:
                 inner = {"k": rng.choice(["CcXor", "CcAny"]), "ch": ich, "id": self.fresh(), "default": [rng.choice(ich)["id"]]}
                 ch = ch + [inner]; nested = True
         r = {"k": kind, "ch": ch, "id": self.fresh(force_id)}
+        if kind in ("CcAny", "CcXor", "Any", "Xor", "All") and rng.random() < 0.15:
+            r["via"] = "from_list"
         if kind in ("CcAny", "CcXor"):
             q = rng.random() if not nested else rng.uniform(0.12, 0.7)
             if q < 0.12 and len(ch) >= 3:
